@@ -41,7 +41,7 @@ def one(sd):
         if ap.returncode != 0:
             ap = subprocess.run(["patch", "-p1", "-d", scratch, "-i", os.path.join(sd, "patch.diff"), "--fuzz=3", "-s"], capture_output=True, text=True)
         if ap.returncode != 0:
-            return (rel, target, "noapply", []), [f"{rel}: PATCH DOES NOT APPLY: {ap.stderr.strip()[:200]} {ap.stdout.strip()[:200]}"]
+            return (rel, target, "noapply", [], []), [f"{rel}: PATCH DOES NOT APPLY: {ap.stderr.strip()[:200]} {ap.stdout.strip()[:200]}"]
         env = dict(os.environ, VERIF_REPO=scratch, VERIF_EVIDENCE_DIR=os.path.join(scratch, "_evidence"))
         hit = {}
         for p in (props or claimed):
@@ -52,6 +52,8 @@ def one(sd):
                 hit[p] = detail
             elif r.returncode == 2:
                 hit[p] = ["ANALYSIS-ERROR " + " ".join(l for l in r.stdout.splitlines() if "ANALYSIS-ERROR" in l)[:300]]
+        import re as _re
+        rules_hit = sorted({m for d in hit.values() for l in d for m in _re.findall(r"\[(R\d+\w?)\]", l)})
         status = "DETECTED" if target in hit else ("detected-by-other" if hit else "MISSED")
         lines.append(f"{rel}: target={target} {status} {sorted(hit)}")
         shown = set()
@@ -60,7 +62,7 @@ def one(sd):
                 if l not in shown:
                     shown.add(l)
                     lines.append(f"      {p}: {l[:230]}")
-        return (rel, target, status, sorted(hit)), lines
+        return (rel, target, status, sorted(hit), rules_hit), lines
     finally:
         shutil.rmtree(scratch, ignore_errors=True)
 
@@ -76,6 +78,7 @@ with ThreadPoolExecutor(max_workers=int(os.environ.get("EVAL_JOBS", "12"))) as e
 if "--write-expected" in sys.argv:
     exp = {r[0].replace(os.sep, "-"): r[3] for r in results if r[2] != "noapply"}
     json.dump(exp, open(os.path.join(root, "EXPECTED.json"), "w"), indent=1, sort_keys=True)
+    json.dump({r[0].replace(os.sep, "-"): r[4] for r in results if r[2] != "noapply"}, open(os.path.join(root, "EXPECTED_RULES.json"), "w"), indent=1, sort_keys=True)
     print("wrote", os.path.join(root, "EXPECTED.json"))
 n = len(results)
 det = sum(1 for r in results if r[2] == "DETECTED")
